@@ -801,6 +801,34 @@ def run(prog: Program, rep: Report, lf):
             and isinstance(loops[0].body[0], ast.Expr) and isinstance(loops[0].body[0].value, ast.Call) \
             and src(loops[0].body[0].value.func) == f"{f.self_name}.{prim}" \
             and [src(a) for a in loops[0].body[0].value.args] == [src(loops[0].target)]
+        if not ok:
+            # the same on path summaries (private helpers followed, bound methods handed on): every round of the one loop over
+            # the input makes exactly one self.<prim>(<element of this round>) call, and nothing else touches the list
+            from .. import paths as _paths
+            ps_, un_ = _paths.summaries(prog, f, lf.lst)
+            data_t = ("p", f.params[1])
+            verdict = None if un_ else True
+            rounds_seen = 0
+            for p_ in ps_ if not un_ else []:
+                evs = list(p_.events)
+                loops_ = [e for e in evs if e[0] == "loop"]
+                if len(loops_) != 1 or _paths.strip_versions(loops_[0][2]) != data_t:
+                    verdict = None if verdict is not False else verdict
+                    continue
+                for i_, e in enumerate(evs):
+                    if e[0] == "iter":
+                        rounds_seen += 1
+                        calls_ = [x for x in evs[i_ + 1:] if x[0] == "call" and x[2] == ("self",)]
+                        if not (len(calls_) == 1 and calls_[0][1] == prim and calls_[0][3] == (e[2],)):
+                            verdict = False
+                other = [x for x in evs if x[0] in ("setfield", "setattr", "setitem", "delitem")]
+                if other:
+                    verdict = False if verdict is not None else verdict
+            if verdict is True and rounds_seen:
+                ok = True
+            elif verdict is None or not rounds_seen:
+                rep.unrec("C08.R4", f, "delegates", f"{name} is not the plain loop `for d in data: self.{prim}(d)` and its path summary is not understood")
+                continue
         rep.check("C08.R4", f, "delegates", ok, f"one {prim}(d) per input element, in input order",
                   f"{name} is not `for d in data: self.{prim}(d)`",
                   scenario=f"{name}([4,5,6]) does not add exactly 4, 5, 6 in the documented order")
